@@ -4,6 +4,7 @@ import (
 	"bytes"
 	"fmt"
 	"io"
+	"math"
 	"strconv"
 	"strings"
 
@@ -430,12 +431,12 @@ func (s Emitter) formatLiteral(output io.Writer, literal *cypher.Literal) error 
 		}
 
 	case float32:
-		if _, err := io.WriteString(output, strconv.FormatFloat(float64(typedLiteral), 'f', -1, 64)); err != nil {
+		if _, err := io.WriteString(output, formatFloatLiteral(float64(typedLiteral))); err != nil {
 			return err
 		}
 
 	case float64:
-		if _, err := io.WriteString(output, strconv.FormatFloat(typedLiteral, 'f', -1, 64)); err != nil {
+		if _, err := io.WriteString(output, formatFloatLiteral(typedLiteral)); err != nil {
 			return err
 		}
 
@@ -444,6 +445,18 @@ func (s Emitter) formatLiteral(output io.Writer, literal *cypher.Literal) error 
 	}
 
 	return nil
+}
+
+// formatFloatLiteral writes a floating point literal so that it reads back as one: a whole number keeps a fractional
+// part (1.0, not 1, which is an integer literal).
+func formatFloatLiteral(value float64) string {
+	formatted := strconv.FormatFloat(value, 'f', -1, 64)
+
+	if math.IsInf(value, 0) || math.IsNaN(value) || strings.ContainsRune(formatted, '.') {
+		return formatted
+	}
+
+	return formatted + ".0"
 }
 
 // Operator precedence of the boolean connectives, weakest first (openCypher: OR < XOR < AND < NOT).
